@@ -231,6 +231,13 @@ func (g *G) genDidMsg() (sdk.Msg, string) {
 			if err != nil {
 				panic(err)
 			}
+			if g.chance("retarget", g.bias("did-retarget", 30)) {
+				// the observed message is re-sent under ANOTHER identifier that lists the same
+				// key, with the method id re-pointed accordingly
+				if m2, ok := g.retarget(msg); ok {
+					return m2, "did-replay-under-another-did"
+				}
+			}
 			if g.chance("other-relayer", 50) {
 				switch x := msg.(type) {
 				case *didtypes.MsgCreateDIDRequest:
@@ -284,6 +291,7 @@ func (g *G) genDidMsg() (sdk.Msg, string) {
 				note = "did-create-mismatch"
 			}
 		}
+		g.proofIntent = target
 		vmid, sig, how := g.proof(doc, auth, docBytes(doc), 0, nil)
 		return &didtypes.MsgCreateDIDRequest{Did: target, Document: doc, VerificationMethodId: vmid, Signature: sig, FromAddress: from}, note + " proof=" + how
 	}
@@ -316,6 +324,9 @@ func (g *G) genDidMsg() (sdk.Msg, string) {
 	}
 	if kind == "deactivate" {
 		content := docBytes(&didtypes.DIDDocument{Id: did})
+		g.proofIntent = did
+		// a wallet that signs the document that will be stored (the tombstone) instead of {id}
+		g.forceEmptyDocProof = g.chance("tombstone-proof", g.bias("tombstone-proof", 5))
 		vmid, sig, how := g.proof(stored, cur, content, seq, stored)
 		return &didtypes.MsgDeactivateDIDRequest{Did: did, VerificationMethodId: vmid, Signature: sig, FromAddress: from}, "did-deactivate proof=" + how
 	}
@@ -351,6 +362,7 @@ func (g *G) genDidMsg() (sdk.Msg, string) {
 	} else {
 		doc = g.genDoc(docDID, newAuth)
 	}
+	g.proofIntent = did
 	vmid, sig, how := g.proof(stored, cur, docBytes(doc), seq, stored)
 	return &didtypes.MsgUpdateDIDRequest{Did: did, Document: doc, VerificationMethodId: vmid, Signature: sig, FromAddress: from}, note + " proof=" + how
 }
@@ -367,8 +379,8 @@ func (g *G) proof(against *didtypes.DIDDocument, authKeys []int, content []byte,
 	}
 	sign := func(ki int, c []byte, s uint64) []byte {
 		payload := world.DataWithSeqBytes(c, s)
-		g.proofs = append(g.proofs, world.ProofReg{Key: ki, Payload: base64.StdEncoding.EncodeToString(payload)})
-		return w.DID.SignProof(w.Keys, ki, payload)
+		g.proofs = append(g.proofs, world.ProofReg{Key: ki, Payload: base64.StdEncoding.EncodeToString(payload), DID: g.proofIntent})
+		return w.DID.SignProofFor(w.Keys, ki, payload, g.proofIntent)
 	}
 	right := func() (string, []byte, bool) {
 		if len(auth) == 0 {
@@ -377,12 +389,25 @@ func (g *G) proof(against *didtypes.DIDDocument, authKeys []int, content []byte,
 		a := pick(g, "auth-entry", auth)
 		return a[1].(string), sign(a[0].(int), content, seq), true
 	}
+	if g.forceEmptyDocProof {
+		g.forceEmptyDocProof = false
+		if len(auth) > 0 {
+			a := pick(g, "auth-entry", auth)
+			return a[1].(string), sign(a[0].(int), docBytes(&didtypes.DIDDocument{}), seq), "proof-over-the-empty-document"
+		}
+	}
 	if g.chance("right-proof", g.bias("right-proof", 62)) {
 		if id, sig, ok := right(); ok {
 			return id, sig, "right"
 		}
 	}
-	switch g.weighted("wrong-proof", "vm-only", 3, "not-listed", 3, "wrong-seq", 4, "prev-content", 2, "other-content", 2, "garbage", 2, "empty", 1, "wrong-id", 2, "foreign-did", 3, "empty-id", 2) {
+	switch g.weighted("wrong-proof", "vm-only", 3, "not-listed", 3, "wrong-seq", 4, "prev-content", 2, "other-content", 2, "garbage", 2, "empty", 1, "wrong-id", 2, "foreign-did", 3, "empty-id", 2, "empty-doc-content", 2) {
+	case "empty-doc-content":
+		// a proof over the id-less (tombstone) document: it names no identifier at all
+		if len(auth) > 0 {
+			a := pick(g, "auth-entry", auth)
+			return a[1].(string), sign(a[0].(int), docBytes(&didtypes.DIDDocument{}), seq), "proof-over-the-empty-document"
+		}
 	case "empty-id":
 		// an otherwise right proof that quotes no method id at all
 		if len(auth) > 0 {
@@ -555,4 +580,50 @@ func (g *G) genDidGenesis(cdc codec.JSONCodec, keys []world.DIDKey, consistent .
 		panic(err)
 	}
 	return bz
+}
+
+// retarget rewrites an accepted DID message so that it addresses another active identifier whose
+// document lists, under authentication, the key the message's proof was made with.
+func (g *G) retarget(msg sdk.Msg) (sdk.Msg, bool) {
+	var did string
+	var sig []byte
+	switch x := msg.(type) {
+	case *didtypes.MsgCreateDIDRequest:
+		did, sig = x.Did, x.Signature
+	case *didtypes.MsgUpdateDIDRequest:
+		did, sig = x.Did, x.Signature
+	case *didtypes.MsgDeactivateDIDRequest:
+		did, sig = x.Did, x.Signature
+	}
+	ki, ok := g.W.DID.ProofKey(sig)
+	if !ok {
+		return nil, false
+	}
+	type cand struct{ did, vmid string }
+	var cands []cand
+	for _, d := range sortedKeys(g.W.DID.Entries) {
+		e := g.W.DID.Entries[d]
+		if d == did || e.Tombstone {
+			continue
+		}
+		auth, _ := g.authKeysOf(e.Doc)
+		for _, a := range auth {
+			if a[0].(int) == ki {
+				cands = append(cands, cand{d, a[1].(string)})
+			}
+		}
+	}
+	if len(cands) == 0 {
+		return nil, false
+	}
+	c := cands[g.intn("retarget-to", len(cands))]
+	switch x := msg.(type) {
+	case *didtypes.MsgCreateDIDRequest:
+		x.Did, x.VerificationMethodId = c.did, c.vmid
+	case *didtypes.MsgUpdateDIDRequest:
+		x.Did, x.VerificationMethodId = c.did, c.vmid
+	case *didtypes.MsgDeactivateDIDRequest:
+		x.Did, x.VerificationMethodId = c.did, c.vmid
+	}
+	return msg, true
 }
